@@ -472,6 +472,7 @@ type Plugin struct {
 
 	Caps        []bgp.Capability
 	OpenVeto    *bgp.Notification // returned from OnOpenMessage
+	OpenDelay   time.Duration     // time spent inside OnOpenMessage
 	HandlerVeto int               // 1-based index of the UPDATE whose handler returns VetoNotif (0 = never)
 	VetoNotif   *bgp.Notification
 	NilHandler  bool
@@ -519,6 +520,9 @@ func (pl *Plugin) OnOpenMessage(c bgp.PeerConfig, rid netip.Addr, caps []bgp.Cap
 	id4 := rid.As4()
 	pl.tr().log(pl.peer.key, "cb.enter", "OnOpenMessage", g,
 		strconv.FormatUint(uint64(id4[0])<<24|uint64(id4[1])<<16|uint64(id4[2])<<8|uint64(id4[3]), 10), capsTerm(caps))
+	if pl.OpenDelay > 0 {
+		time.Sleep(pl.OpenDelay)
+	}
 	pl.tr().log(pl.peer.key, "cb.exit", "OnOpenMessage", g, notifTerm(pl.OpenVeto))
 	return pl.OpenVeto
 }
